@@ -22,7 +22,7 @@ META = {
         "with CRLF tried before CR; the list rule — evaluated as a PEG over abstract line-level words — accepts blank lines, full-line comments and a final line with or without a "
         "line break, and rejects two transactions on one line. R5: every keyword that can follow `money` and could lex as a currency code is excluded by the "
         "currency look-ahead, and no ISO-4217 code is excluded. R6: the consumers are evaluated symbolically on every derivation tree: a tree without a currency node yields a GBP amount, "
-        "a tree without a FEES/TAX node yields zero GBP in fees/tax_paid, a tree with one yields the clause's own value. R7: every CgtError built in the parser module is ParseError."),
+        "a tree without a FEES/TAX node yields zero GBP in fees/tax_paid, a tree with one yields the clause's own value. R7: every CgtError built in the parser module is ParseError. R8: the currency-code consumer folds the case before the ISO look-up."),
     "trusted_base": ["pest semantics of implicit WHITESPACE/COMMENT skipping and silent rules (pest 2.8 generator, read)",
                      "pest_meta parses the grammar exactly as pest_derive does", "syn token structure of match_nodes! arms"],
 }
@@ -545,6 +545,26 @@ def parser_errors(F, rep):
     rep.count("parser_error_constructions", n)
 
 
+def currency_case(F, rep):
+    """R8 (case of currency codes): the grammar accepts a code in any case (R3 looks at keywords, the code itself is
+    ASCII_ALPHA{3}); the ISO table is upper-case, so the consumer must fold the case before the look-up — otherwise `usd` parses
+    in the grammar and is then rejected as an invalid currency (seeded change C13-s3)."""
+    from mir import Terms, parse_callee, subterms
+    n = 0
+    for b, i, t in F.call_sites(lambda c: c.endswith("Currency::from_code")):
+        if b.crate != "cgt_core" or "::parser::" not in b.id:
+            continue
+        n += 1
+        tb = Terms(F, b, inline_depth=1)
+        arg = tb.operand(t["args"][0])
+        ok = any(isinstance(x, tuple) and x and x[0] == "call" and parse_callee(x[1])[2] in ("to_uppercase", "to_ascii_uppercase") for x in subterms(arg))
+        rep.ob("R8", f"{b.short}:currency-case-folded", ok, "the currency code is upper-cased before the ISO look-up" if ok else
+               "the currency code is looked up as written: lower- or mixed-case codes are rejected although the grammar accepts them",
+               b.loc(t["sp"]), key=f"R8:{b.short}:currency-case")
+    if n < 1:
+        rep.unresolved("R8", "currency-lookup", "no ISO currency look-up found in the DSL parser")
+
+
 def run(ctx, rep):
     S = ctx.S
     if S is None or "error" in S["grammar"]:
@@ -556,3 +576,4 @@ def run(ctx, rep):
     currency_lookahead(S, g, rep)
     defaults(S, g, rep)
     parser_errors(ctx.F, rep)
+    currency_case(ctx.F, rep)
